@@ -348,6 +348,20 @@ pub fn run_settings(cfg: &Config, s: &mut Session, rng: &mut Rng) {
             if !is_v2 {
                 let ok = o.iter().enumerate().all(|(j, x)| j >= n_axes || settings.iter().any(|(t, _)| *t == all_tags[j]) || *x == 0);
                 s.oracle("user_to_normalized-untouched-axes-are-0", ok, input, || format!("{o:?}"));
+                // every slot, from the per-axis pieces (which have their own exact oracles): duplicate axis tags
+                // must ALL be written, each with its own record / segment map
+                let recs = fvar.axes().unwrap();
+                for (j, x) in o.iter().enumerate().take(n_axes) {
+                    let want = match settings.iter().rev().find(|(t, _)| *t == all_tags[j]) {
+                        None => 0i16,
+                        Some((_, v)) => {
+                            let c = recs[j].normalize(Fixed::from_bits(*v));
+                            let c = avar.as_ref().and_then(|a| a.axis_segment_maps().get(j).transpose().ok().flatten()).map(|m| m.apply(c)).unwrap_or(c);
+                            c.to_f2dot14().to_bits()
+                        }
+                    };
+                    s.oracle("user_to_normalized-slot=avar(normalize(axis,last value of its tag))", *x == want, input, || format!("slot {j}: got {x} want {want}"));
+                }
                 // every axis sharing a tag gets its own normalisation of the same value
                 for (j, x) in o.iter().enumerate().take(n_axes) {
                     if let Some((_, v)) = settings.iter().rev().find(|(t, _)| *t == all_tags[j]) {
